@@ -7,6 +7,12 @@ M3  the real TournamentSelection.select on populations of real agents (DQN, DDPG
     several generations, np.random.randint logged (not altered); parents identified by weight fingerprints;
     faithfulness of the copies, the old population and storage sharing projected as for C01; TLC validates
     each generation against EvoSelect_Trace.
+Round 4 (coverage audit): M1 also over repeated selection with re-evaluation and reversal in between from populations with
+    sparse, unordered indices (EvoSelect_MCg*.cfg, SpecU); M3 also with fractional (dyadic), large-offset and numpy-typed
+    scores, heterogeneous members (learning rate, batch size, hidden sizes, steps, scores, mut), through the training loops'
+    helper utils.tournament_selection_and_mutation (identity mutation stub, with and without save_elite), fixed boundary
+    configurations (one agent, new size 1 with elitism = no tournament, tournament larger than the population, window longer
+    than every history, window 1 on long histories, growing / shrinking generation) and a long run.
 """
 from __future__ import annotations
 
@@ -43,8 +49,14 @@ def what(t, v):
 def run(ctx):
     quick = ctx.quick
     rng = random.Random(ctx.seed)
-    ctx.mc("EvoSelect_MC", "EvoSelect_MCqq.cfg" if quick else "EvoSelect_MCq.cfg", must_cover=["MCSelect|Select"])
     jobs = []
+
+    def opts_for(j):
+        """rotating input variations (the plain one stays in the rotation)"""
+        return [None,
+                {"fscale": 4, "ftype": "mixed"},
+                {"hetero": True, "via": "utils", "save_elite": j % 8 == 2},
+                {"fscale": 4, "foffset": 16001, "ftype": ("np64", "np32", "int")[j % 3], "hetero": True}][(j + j // 2) % 4]
     algos = ["DQN", "DDPG", "NeuralUCB"] if quick else ["DQN", "DDPG", "PPO", "NeuralUCB", "MADDPG", "RainbowDQN", "TD3", "IPPO"]
     # systematic: ties, negatives, unequal lengths
     hists = [[[1], [1], [1]], [[-1, 2], [2, -1], [0]], [[3], [1, 1, 4], [2, 2]], [[0, 0, 5], [5], [-3, 4, 1]]]
@@ -52,21 +64,41 @@ def run(ctx):
     for algo in algos:
         for h in hists:
             for (k, n, el, W) in ([(2, 3, True, 1), (1, 2, False, 2), (3, 4, True, 3)] if not quick else [(2, 3, bool(j % 2), 1 + j % 3)]):
-                jobs.append((algo, 3, k, n, el, W, h, 3, ctx.seed + j))
+                jobs.append((algo, 3, k, n, el, W, h, 3, ctx.seed + j, opts_for(j + ctx.seed)))
                 j += 1
+    # boundary configurations (fixed, all tiers): one agent; new size 1 with elitism (no tournament at all); tournament larger
+    # than the population; window longer than every history; window 1 on long histories; growing / shrinking generation
+    long_h = [[2, 2, 2, -9], [-9, -9, -9, 3], [1, 1, 1, 1]]
+    for (n_pop, k, n, el, W, h) in [(1, 2, 2, True, 2, [[-1]]), (3, 2, 1, True, 2, [[0, 4], [3], [1, 1]]), (2, 5, 3, False, 1, [[1], [0, 2]]),
+                                    (3, 2, 4, True, 6, [[1, 1, -4], [0], [2, -1]]), (3, 3, 2, False, 1, long_h), (3, 2, 5, True, 3, long_h)]:
+        jobs.append((algos[j % len(algos)], n_pop, k, n, el, W, h, 2, ctx.seed + j, opts_for(j + ctx.seed)))
+        j += 1
+    if not quick:          # many generations: indices keep growing, histories outgrow the window
+        for algo, o in (("DQN", None), ("DDPG", {"fscale": 4, "ftype": "mixed", "via": "utils"})):
+            jobs.append((algo, 4, 2, 4, True, 3, [[0], [1], [1], [-1]], 12, ctx.seed + j, o))
+            j += 1
     for _ in range(6 if quick else 60):
         n_pop = rng.randint(1, 5)
         h = [[rng.randint(-2, 3) for _ in range(rng.randint(1, 4))] for _ in range(n_pop)]
-        jobs.append((rng.choice(algos), n_pop, rng.randint(1, 4), rng.randint(1, 6), rng.random() < 0.6, rng.randint(1, 4), h, rng.randint(2, 5), ctx.seed + j))
+        jobs.append((rng.choice(algos), n_pop, rng.randint(1, 4), rng.randint(1, 6), rng.random() < 0.6, rng.randint(1, 4), h, rng.randint(2, 5), ctx.seed + j,
+                     opts_for(rng.randint(0, 7))))
         j += 1
     with ProcessPoolExecutor(max_workers=12) as ex:
-        traces = list(ex.map(_run, jobs))
+        pending = ex.map(_run, jobs)           # the real-code runs start now; TLC model-checks the specification meanwhile
+        ctx.mc("EvoSelect_MC", "EvoSelect_MCqq.cfg" if quick else "EvoSelect_MCq.cfg", must_cover=["MCSelect|Select"])
+        r = ctx.mc("EvoSelect_MC", "EvoSelect_MCgq.cfg" if quick else "EvoSelect_MCg.cfg", must_cover=["MCSelect|Select"])
+        if r.ok and r.depth < 6:
+            raise RuntimeError(f"EvoSelect_MCg: second generation never reached (depth {r.depth})")
+        traces = list(pending)
     for t, jb in zip(traces, jobs):
         ctx.case(str(jb), nontrivial=len(t["ev"]) >= 2)
     ctx.sample({"cfg": traces[0]["cfg"], "events": traces[0]["ev"][:2]})
     ctx.extra["generations_validated"] = sum(len(t["ev"]) for t in traces)
     ctx.validate("EvoSelect_Trace", TRACE_CFG, traces, sig=sig, what=what, chunk=200)
-    ctx.assume("fitness scores are small integers so that np.mean comparisons agree with exact rational comparison; empty fitness histories are outside the quantifier")
+    ctx.extra["input_variations"] = sorted({str(jb[9]) for jb in jobs})
+    ctx.assume("fitness scores are dyadic rationals of small magnitude (multiples of 1 or 1/4, |x| < 4100) so that np.mean comparisons agree with "
+               "exact rational comparison; empty fitness histories are outside the quantifier")
+    ctx.assume("the population is a list (the documented PopulationType); accelerator-wrapped agents are outside this check")
     ctx.assume("parents are identified by weight fingerprints (every initial member is trained on a different batch)")
-    return "model_checking", ("case = (algorithm, population size, tournament size, new size, elitism, window, fitness histories, generations); "
+    return "model_checking", ("case = (algorithm, population size, tournament size, new size, elitism, window, fitness histories, generations, seed, input variation); "
                               "non-trivial = at least two generations validated"), False
